@@ -1,4 +1,4 @@
-import DoitModel.Proofs.RunSerial3
+import DoitModel.Proofs.RunPar
 /-! # C02 — each needed task is processed exactly once; nothing else runs
 
 Property theorems only (model: `Model/Run.lean`; invariants: `Proofs/Run*.lean`).
@@ -48,7 +48,28 @@ theorem C02_monitor_serial (inp : RunInput) (s : Sys) (hr : Reach inp s) (nTasks
     intro x _ hx; simp only [Bool.and_eq_true] at hx; exact hx.1
   exact ⟨Nat.le_trans (key _) (h t).1, Nat.le_trans (key _) (h t).2⟩
 
-/-- parallel statement (MRunner / MThreadRunner) -/
-def C02_at_most_once_parallel_full : Prop := ∀ inp : RunInput, AtMostOnce (PReach inp)
+/-- C02 (safety part) for the parallel runners, every worker interleaving and every `numProcess` -/
+theorem C02_at_most_once_parallel (inp : RunInput) : AtMostOnce (PReach inp) := by
+  intro s hr t
+  have h3 := (preach_inv hr).2
+  have hj := h3.j t
+  have hp := h3.p0 t
+  refine ⟨?_, h3.t2 t⟩
+  show cStart s t ≤ 1
+  omega
+
+/-- hand-out accounting of the parallel main loop: a task chosen by `select_task` is in exactly one place — held by
+    `get_next_job`, in the job queue, or already started — so no job is handed out twice and none is lost before it
+    starts; a started task is executed by at most one worker -/
+theorem C02_job_accounting (inp : RunInput) (s : Sys) (hr : PReach inp s) (t : Name) :
+    s.jobQ.count (.task t) + holding s t + s.events.countP (Ev.isStartOf t) = s.events.countP (Ev.isGoOf t) ∧
+    (∀ w w', s.workers w = .running t → s.workers w' = .running t → w = w') ∧
+    (t ∈ s.resQ → ∀ w, s.workers w ≠ .running t) := by
+  have h3 := (preach_inv hr).2
+  refine ⟨h3.j t, fun w w' a b => h3.w2 w w' t a b, ?_⟩
+  intro hq w hw
+  have := (h3.q1 t hq).1
+  have := (h3.w1 w t hw).2.1
+  omega
 
 end DoitModel.C02
